@@ -35,7 +35,7 @@ def cv_conf(name, atom, flags, ra_len, ra_stride, ext):
     return s
 
 
-def gen(rng, tier):
+def gen_traj(rng, tier):
     n = 40 if tier == "quick" else 400
     cases = []
     work = os.path.join(cvbuild.CACHE, "c19-scratch")
@@ -113,9 +113,13 @@ def gen(rng, tier):
 
 
 def distribution(cases):
-    d = {"freq": {}, "runave": 0, "extended": 0, "midrun_config": 0, "steps": 0, "start_off_schedule": 0}
+    d = {"freq": {}, "runave": 0, "extended": 0, "midrun_config": 0, "steps": 0, "start_off_schedule": 0, "acf": {}}
     for c in cases:
         m = c["meta"]
+        if m.get("family") == "acf":
+            key = "%s/%s/%s" % (m["vt"], m["acf"]["kind"], "cross" if m["acf"]["with"] == "q" else "auto")
+            d["acf"][key] = d["acf"].get(key, 0) + 1
+            continue
         if "freq" not in m:
             continue
         d["freq"][m["freq"]] = d["freq"].get(m["freq"], 0) + 1
@@ -137,6 +141,8 @@ def file_lines(out, ln):
 
 def oracle(case, out):
     m = case["meta"]; viol = []
+    if m.get("family") == "acf":
+        return oracle_acf(case, out)
     ln = m["dump"]
     # reconstruct the file order: the harness prints lines in file order; parse_out numbers occurrences per tag, so
     # collect per tag in order
@@ -209,6 +215,126 @@ def oracle(case, out):
                 viol.append("running average at relative step %d: written (%r, %r), mean and sample standard deviation of the last %d values are (%r, %r)" % (st, v[0], v[1], L_, em, es))
                 return viol
     return viol
+
+
+# ---------------------------------------------------------------- time-correlation functions
+def acf_cv(name, vt, a, b, acf):
+    """vt: s = scalar (z of atom a), v = distanceVec a->b, u = distanceDir a->b; acf = None or dict"""
+    s = "colvar {\n  name %s\n" % name
+    if acf:
+        s += "  corrFunc on\n  corrFuncType %s\n  corrFuncLength %d\n  corrFuncStride %d\n  corrFuncOffset %d\n  corrFuncNormalize %s\n" % (
+            {"coor": "coordinate", "vel": "velocity", "p2": "coordinate_p2"}[acf["kind"]], acf["L"], acf["s"], acf["o"], "on" if acf["norm"] else "off")
+        if acf["with"] != name:
+            s += "  corrFuncWithColvar %s\n" % acf["with"]
+    if vt == "s":
+        s += "  distanceZ {\n    main { atomNumbers %d }\n    ref { dummyAtom (0.0, 0.0, 0.0) }\n    axis (0.0, 0.0, 1.0)\n  }\n}\n" % (a + 1)
+    else:
+        s += "  %s {\n    group1 { atomNumbers %d }\n    group2 { atomNumbers %d }\n  }\n}\n" % ("distanceVec" if vt == "v" else "distanceDir", a + 1, b + 1)
+    return s
+
+
+def gen_acf(rng, tier):
+    n = 24 if tier == "quick" else 300
+    cases = []
+    work = os.path.join(cvbuild.CACHE, "c19-scratch")
+    os.makedirs(work, exist_ok=True)
+    combos = [("s", "coor"), ("s", "vel"), ("v", "coor"), ("v", "vel"), ("v", "p2"), ("u", "coor"), ("u", "p2")]
+    for k in range(n):
+        vt, kind = combos[k % len(combos)]
+        cross = (k // len(combos)) % 2 == 1
+        L = rng.randint(1, 4); st = rng.randint(1, 3); o = rng.randint(0, 2); norm = rng.rand() < 0.5
+        K = st * rng.randint(1, 3)
+        dt = rng.choice([0.5, 1.0, 2.0])
+        it0 = rng.choice([0, 0, K, 3 * K + 1])
+        prefix = os.path.join(work, "a%d" % k)
+        for fn in os.listdir(work):
+            if fn.startswith("a%d." % k):
+                os.unlink(os.path.join(work, fn))
+        acf = {"kind": kind, "L": L, "s": st, "o": o, "norm": norm, "with": "q" if cross else "p"}
+        lines = ["m.new 4", "m.opt dt %s" % fbits(dt), "m.opt restartfreq %d" % K] + (["m.opt it %d" % it0] if it0 else []) + ["m.opt prefix %s" % prefix]
+        # the partner is defined first (a velocity correlation looks it up when the configuration is parsed)
+        lines.append(cfg(acf_cv("q", vt, 2, 3, None) + acf_cv("p", vt, 0, 1, acf)))
+        lines.append("A.acf p %s %s %s %d %d %d %d 0 1" % (acf["with"], kind, vt, L, st, o, 1 if norm else 0))
+        lines.append("A.acf q q coor %s 1 1 0 0 2 3" % vt)      # (declares q's atoms to the model; q itself has no correlation function)
+        lines.append("A.file %s.p.corrfunc.dat p" % prefix)
+        N = (L + o) * st + rng.randint(2, 14)
+        P = [[rng.uniform(-2, 2) for _ in range(3)] for _ in range(4)]
+        P[1][0] += 3.0; P[3][1] += 3.0
+        hist = []
+        for s_ in range(N + 1):
+            for a in range(4):
+                P[a] = [x + rng.uniform(-0.4, 0.4) for x in P[a]]
+                lines.append(pos(a, P[a][0], P[a][1], P[a][2]))
+            lines.append("m.step")
+            hist.append([list(p_) for p_ in P])
+        lines.append("t.dump %s.p.corrfunc.dat" % prefix)
+        cases.append({"lines": lines, "meta": {"family": "acf", "vt": vt, "acf": acf, "K": K, "dt": dt, "it0": it0, "history": hist, "dump": len(lines)},
+                      "nontrivial": True})
+    return cases
+
+
+def gen(rng, tier):
+    return gen_traj(rng, tier) + gen_acf(rng, tier)
+
+
+def oracle_acf(case, out):
+    """the textbook definition C_ij(tau) = < Pi(xi_i(t0), xi_j(t0 + tau)) > over the values the variables actually took"""
+    m = case["meta"]; a = m["acf"]; vt = m["vt"]; ln = m["dump"]
+    L, st, o, K, dt = a["L"], a["s"], a["o"], m["K"], m["dt"]
+
+    def val(P, i, j):
+        if vt == "s":
+            return [P[i][2]]
+        d = [P[j][c] - P[i][c] for c in range(3)]
+        if vt == "u":
+            n_ = math.sqrt(sum(x * x for x in d)); d = [x / n_ for x in d]
+        return d
+    H = m["history"]
+    own = [val(P, 0, 1) for P in H]; oth = [val(P, 2, 3) for P in H] if a["with"] == "q" else own
+    if a["kind"] == "vel":
+        def vel(S):
+            return [[0.0] * len(S[0])] + [[(x - y) / dt for x, y in zip(S[t], S[t - 1])] for t in range(1, len(S))]
+        own, oth = vel(own), (vel(oth) if a["with"] == "q" else None)
+        if oth is None:
+            oth = own
+
+    def dot(x, y):
+        return sum(p * q for p, q in zip(x, y))
+
+    def Pi(past, now):
+        if a["kind"] == "p2":
+            c = dot(past, now) if vt == "u" else dot(past, now) / math.sqrt(dot(past, past) * dot(now, now))
+            return 1.5 * c * c - 0.5
+        return dot(past, now)
+    # the file shows the state at the last step (> first) whose absolute number is a multiple of the restart frequency
+    last = max([t for t in range(1, len(H)) if (m["it0"] + t) % K == 0], default=0)
+    rows = [0.0] * (L + 1); cnt = 0
+    for t in range(1, last + 1):
+        if t - (o + L) * st >= 1:
+            cnt += 1
+            rows[0] += 1.0 if a["kind"] == "p2" else dot(own[t], oth[t])
+            for j in range(1, L + 1):
+                rows[j] += Pi(own[t - (o + j) * st], oth[t])
+    got = []; occ = 1
+    while (ln, "td", occ) in out:
+        got.append((tok_val(out[(ln, "td", occ)][0])[1], tok_val(out[(ln, "tv", occ)][0])[1])); occ += 1
+    what = "%s correlation function of a %s variable %s (length %d, stride %d, offset %d, %snormalised)" % (
+        {"coor": "coordinate", "vel": "velocity", "p2": "coordinate_p2"}[a["kind"]], {"s": "scalar", "v": "3-vector", "u": "unit-vector"}[vt],
+        "with another variable" if a["with"] == "q" else "with itself", L, st, o, "" if a["norm"] else "not ")
+    if cnt == 0:
+        return [] if not got else ["%s: %d rows written although no complete row of lags exists yet" % (what, len(got))]
+    if len(got) != L + 1:
+        return ["%s: the file has %d rows, expected %d (state at relative step %d, %d complete rows of lags)" % (what, len(got), L + 1, last, cnt)]
+    exp = [r / cnt for r in rows]
+    if a["norm"]:
+        exp = [r / exp[0] for r in exp]
+    for j, ((lab, v), e) in enumerate(zip(got, exp)):
+        if lab != st * (o + j):
+            return ["%s: row %d is labelled %r, expected %d" % (what, j, lab, st * (o + j))]
+        if not (abs(v - e) <= 1e-9 * max(1.0, abs(e))):
+            return ["%s: row %d (lag %d steps) is %r; the average of Pi(xi_i(t0), xi_j(t0 + lag)) over the %d available time origins is %r"
+                    % (what, j, 0 if j == 0 else st * (o + j), v, cnt, e)]
+    return []
 
 
 def oracle_runave(case, out):
